@@ -16,6 +16,7 @@ def opndOk (nTop : Nat) (nLoc : Nat) : Opnd → Bool
   | .outer k => k < nTop
   | .loc j => j < nLoc
   | .abs _ => false
+  | .slot _ => true
 
 def effectOk (nTop nObs nVars : Nat) (inHandler : Bool) : Effect → Bool
   | .setVar v _ | .modifyVar v _ | .updateVar v _ | .replaceVar v _ | .replaceWithVar v _ => v < nVars
@@ -32,13 +33,17 @@ def instrOperands : Instr → List Opnd
   | .mapRef _ i | .mapWithOld _ i | .bind _ i => [i]
   | .zip a b | .dependOn a b => [a, b]
   | .cutoff n _ => [n]
+  | .publish _ o => [o]
+  | .perKey _ _ x => [x]
+  | .mapOp (.fm _ x) | .mapOp (.fold _ _ _ x) | .mapOp (.part _ x) => [x]
+  | .mapOp (.merge _ x y) => [x, y]
   | _ => []
 
 def templateOk (nTop : Nat) (t : Template) : Bool :=
   let (ok, nLoc) := t.instrs.foldl (fun (acc : Bool × Nat) i =>
     let ok := acc.1 && (instrOperands i).all (opndOk nTop acc.2)
       && (match i with | .var _ | .expert _ => false | _ => true)
-    let creates := match i with | .cutoff _ _ => false | _ => true
+    let creates := match i with | .cutoff _ _ | .publish _ _ => false | _ => true
     (ok, if creates then acc.2 + 1 else acc.2)) (true, 0)
   ok && opndOk nTop nLoc t.ret
 
@@ -107,6 +112,7 @@ def wellFormed (h : History) : Option String := Id.run do
       | [] => pure ()
     | .arm _ => return some s!"action {idx}: fault injection"
     | .dropAll => pure ()
+    | .dropHandle n => if !(opndOk nTop 0 n) then return some s!"action {idx}: no such handle"
     | .expectPanic _ => return some s!"action {idx}: misuse stream"
     | .setMaxHeight _ | .isStable | .stats => pure ()
     idx := idx + 1
